@@ -30,7 +30,7 @@ TRUSTED = [
     "modelled, tied by correspondence only: RFC 6979 byte plumbing (plus independent in-harness RFC 6979 oracles), "
     "DER reader, public entry-point glue (argument checks, dispatch to libsecp256k1, libsecp256k1's own x-coordinate "
     "test; the model's test isXCoord (Euler's criterion) is proved complete and stream-compared with btclib's Jacobi loop), "
-    "bms.sign / bms.assert_as_valid on secp256k1 (T8d is proved over Lawful groups, not transferred to EC.ops), "
+    "bms.sign / bms.assert_as_valid on raw EC.ops secp256k1 pairs (T8d is proved over Lawful groups and instantiated on the lawful carrier opsSub K incl. secp256k1 and a toy curve; the carrier-to-raw run equality of the two bms functions is not proved), "
     "the bindings arm of bms and dsa.Signer (oracles bms.matrix, signer.history)",
     "points with y = 0 (2-torsion, only on even-order toy curves) are infinity for the GroupOps abstraction as for "
     "btclib's affine API: verification cases whose K is such a point, and recovery candidates lifted from a 2-torsion "
